@@ -19,7 +19,9 @@ import (
 	"fmt"
 	"os"
 	"path/filepath"
+	"sort"
 	"strings"
+	"sync"
 	"time"
 
 	mavldb "github.com/33cn/chain33/system/store/mavl/db"
@@ -717,6 +719,11 @@ func (w *worker) flush() {
 	}
 }
 
+var (
+	kindMu    sync.Mutex
+	kindsSeen = map[string]bool{}
+)
+
 func run(c *lib.Ctx) {
 	c.Rule("case = (generated tree history, configuration): 1-8 versions of up to 300 keys (C01 generator incl. ticket keys; every 10th tree starts with a single leaf) built by the real store under " +
 		"plain / prefix / prefix+prune / memtree+memval. Every present key of every version gets its proof verified (completeness). For sampled keys: every single-field change of value, key and root must be rejected " +
@@ -753,6 +760,11 @@ func run(c *lib.Ctx) {
 		for set, vs := range out.Sets {
 			for _, v := range vs {
 				c.Seen(set, v)
+				if set == "still_verifying_kinds" {
+					kindMu.Lock()
+					kindsSeen[v] = true
+					kindMu.Unlock()
+				}
 			}
 		}
 		for _, f := range out.Failures {
@@ -808,6 +820,14 @@ func run(c *lib.Ctx) {
 		}
 	})
 	c.Extra("configs", []string{"plain", "prefix", "prefix+prune", "memtree+memval"})
+	kindMu.Lock()
+	var kinds []string
+	for k := range kindsSeen {
+		kinds = append(kinds, k)
+	}
+	kindMu.Unlock()
+	sort.Strings(kinds)
+	c.Extra("mutation_kinds_that_still_verified_a_true_fact", kinds)
 	c.RequireEvents("honest_proofs_verified", 500)
 	c.RequireEvents("mutations_rejected", 1000)
 	c.RequireEvents("fuzz_inputs", 1000)
